@@ -61,4 +61,14 @@ PROPS = {
                   '10': 'q_sol;jul data does not load back from its JSON', '20': 'model predicts a crash (missing table entry), implementation returned', '21': 'implementation crashed'},
         'assumptions': ['f32 noise absorbed by 1e-4 relative tolerance'],
     },
+    'C17': {
+        'agree': 'agree_C17 (Model/Schedules.v)',
+        'technique': 'Coq proof (induction over periods with the invariant skip = days_so_far mod 7; telescoping sums; 365-date finite sweep lifted by forallb_forall) + vm_compute correspondence incl. all 365 end dates through Model::try_from',
+        'level_text': 'Theorems C17_* state: a yearly schedule of any number of periods expands to sum-of-counts days, day d taking slot d mod 7 (Monday = 0) of the weekly schedule in force; the day-of-year formula equals the calendar for all 365 dates; strictly increasing end dates ending on day 365 give positive periods whose prefix sums are exactly those dates; weekly run-length encoding expands back to the 7 names, daily schedules to 24 values; an hour is in use exactly when some occupied space has non-zero occupancy (order/duplicates irrelevant); the mean load is the floor-area-weighted mean. The models are tied to SchedulesDb::get_year_as_day_sch, the HULC schedule conversion in Model::try_from (all 365 end dates every run) and EnergyProps (occ_spaces_hours_in_use, occ_spaces_average_load, loads_avg) by evaluating both sides on the same inputs inside Coq.',
+        'level_note': 'Trusted: Coq kernel + vm_compute; harness generator/printer. Space areas are taken from the reported props (tied to the Model by C11). Dangling schedule ids / different expanded lengths (crashes) are C14.',
+        'n': {'quick': 400, 'thorough': 8000},
+        'codes': {'1': 'expanded day list differs', '2': 'period lengths from end dates differ', '3': 'weekly runs differ', '4': 'daily values differ',
+                  '5': 'occupied hours differ', '6': 'mean internal load differs', '7': 'a schedule-averaged load differs'},
+        'assumptions': ['loads compared to 1e-4 relative'],
+    },
 }
